@@ -317,7 +317,8 @@ _FIELDS = {"key": ("kind", "text"), "idx": ("kind", "index"), "slice": ("kind", 
 
 
 def diff(E, O):
-    """None if equal, else (index, coarse kind, detail)."""
+    """None if equal, else (index, coarse kind, detail).  Coarse kinds (they go into witness keys):
+    segment-count, kind-changed, <kind>.<field>, coll.inner."""
     if E == O:
         return None
     for i in range(max(len(E), len(O))):
@@ -326,20 +327,19 @@ def diff(E, O):
         if e == o:
             continue
         if e is None:
-            return i, "extra-segment", "extra-segment:%s" % o[0]
+            return i, "segment-count", "extra-segment:%s" % o[0]
         if o is None:
-            return i, "missing-segment", "missing-segment:%s" % e[0]
+            return i, "segment-count", "missing-segment:%s" % e[0]
         if e[0] != o[0]:
-            k = "%s-became-%s" % (e[0], o[0])
-            return i, k, k
+            return i, "kind-changed", "%s-became-%s" % (e[0], o[0])
         for f, (ef, of) in zip(_FIELDS[e[0]][1:], zip(e[1:], o[1:])):
             if ef == of:
                 continue
             if f == "inner":
                 if of and isinstance(of[0], str):
-                    return i, "coll.inner:unparsable", "coll.inner:unparsable:%s" % of[0][:60]
+                    return i, "coll.inner", "coll.inner:unparsable:%s" % of[0][:60]
                 d = diff(list(ef), list(of))
-                return i, "coll.inner:%s" % d[1], "coll.inner:%s" % d[2]
+                return i, "coll.inner", "coll.inner:%s" % d[2]
             if f == "params":
                 if any(isinstance(x, str) and x.startswith("<ValueError") for x in of):
                     return i, "kw.params", "kw.params:%s" % of[0]
@@ -349,8 +349,7 @@ def diff(E, O):
                     if ep != op_:
                         return i, "kw.params", "kw.params:%s" % text_rel(ep, op_)[1]
             if isinstance(ef, str) and isinstance(of, str):
-                c, dt = text_rel(ef, of)
-                return i, "%s.%s:%s" % (e[0], f, c), "%s.%s:%s" % (e[0], f, dt)
+                return i, "%s.%s" % (e[0], f), "%s.%s:%s" % (e[0], f, text_rel(ef, of)[1])
             return i, "%s.%s" % (e[0], f), "%s.%s:%r-became-%r" % (e[0], f, ef, of)
     return 0, "unequal", "unequal"          # pragma: no cover
 
@@ -449,7 +448,7 @@ def ev_canon(entries, sep, oos=None):
             out.append(Fail("canon-reparse", d[1], "%s: %s" % (which, d[2]), {"canonical": c, "segments": O}, P0))
         elif c2 != c:
             rel = text_rel(c, c2)
-            out.append(Fail("canon-fixed-point", "str-of-str-" + rel[0], "%s: %s" % (which, rel[1]),
+            out.append(Fail("canon-fixed-point", "str-of-str-differs", "%s: %s" % (which, rel[1]),
                             {"canonical": c, "str(YAMLPath(canonical))": c2}, c))
     # one Fail per (clause, kind): same-notation and other-notation failures of one kind are one thing
     seen = set()
@@ -945,7 +944,7 @@ def _do_case(coll, sigs, entries, neighbours, part):
             if key in seen:
                 continue
             seen.add(key)
-            coll.witness(key, what, {"entries": _jsonable(tuple(entries)), "sep": sep, "part": part,
+            coll.witness(key, what, {"key": key, "entries": _jsonable(tuple(entries)), "sep": sep, "part": part,
                                      "neighbours": [[how, _jsonable(tuple(nb))] for how, nb in neighbours]},
                          _jsonable(observed) if isinstance(observed, (tuple, list)) else observed,
                          _jsonable(exp) if isinstance(exp, (tuple, list)) else exp)
